@@ -6,6 +6,7 @@ pub mod e2e;
 pub mod pgen;
 pub mod refmodel;
 pub mod gsom;
+pub mod insert;
 pub mod interrupt;
 pub mod model;
 pub mod numerics;
@@ -31,6 +32,8 @@ pub fn property(id: &str, tier: Tier) -> Option<PropertyDef> {
         "C14" => Some(model::property(tier)),
         "C04" => Some(ops::property("C04", tier)),
         "C05" => Some(ops::property("C05", tier)),
+        "C06" => Some(insert::property_c06(tier)),
+        "C20" => Some(insert::property_c20(tier)),
         "C07" => Some(interrupt::property(tier)),
         "C08" => Some(population::property(tier)),
         "C09" => Some(order::property(tier)),
